@@ -3,7 +3,9 @@
  * blocked lockers do not occupy a worker.
  * args: seed= progs= threads= mutexes= iters= nw=
  */
+#ifndef _GNU_SOURCE
 #define _GNU_SOURCE
+#endif
 #include <errno.h>
 #include "hkm.h"
 
